@@ -154,11 +154,24 @@ def clone_with_trim_threshold(packets_mod, threshold):
     then simply runs the genuine function."""
     fn = packets_mod.ccsds_generator
     fn = getattr(fn, "__verif_orig__", fn)
-    code = fn.__code__
-    if TRIM_CONST not in code.co_consts:
+    found = [False]
+
+    def rewrite(code):
+        # the literal may sit in the function itself or in a helper nested inside it (closures are code constants)
+        consts = []
+        for c in code.co_consts:
+            if type(c) is int and c == TRIM_CONST:
+                consts.append(threshold)
+                found[0] = True
+            elif isinstance(c, types.CodeType):
+                consts.append(rewrite(c))
+            else:
+                consts.append(c)
+        return code.replace(co_consts=tuple(consts))
+    new_code = rewrite(fn.__code__)
+    if not found[0]:
         return None
-    consts = tuple(threshold if (type(c) is int and c == TRIM_CONST) else c for c in code.co_consts)
-    new = types.FunctionType(code.replace(co_consts=consts), fn.__globals__, fn.__name__,
+    new = types.FunctionType(new_code, fn.__globals__, fn.__name__,
                              fn.__defaults__, fn.__closure__)
     new.__kwdefaults__ = fn.__kwdefaults__
     new.__verif_orig__ = fn
